@@ -141,7 +141,7 @@ var seqAssumptions = []string{
 func checkC03() *checkDef {
 	return &checkDef{
 		ID: "C03", Title: "A stored response is reused only while fresh; expiry forces an origin contact", Level: "model_checking",
-		LevelText: "Explicit-state exploration of request histories on the real proxy: every origin header class (Cache-Control directives in several letter cases, orders, one or two field lines, malformed/overflowing max-age; Expires absent/future/past/'0'/garbage/RFC 850) x the four ignore/force policies x two default lifetimes x nine gap patterns (gaps of 1 s, lifetime-1 s, lifetime+1 s relative to the reference lifetime) of three requests with the origin's version bumped between them; every exchange is judged against the reference relation B1: origin contacted iff required, HIT label iff no contact, Age and ttl within one second of the reference.",
+		LevelText: "Explicit-state exploration of request histories on the real proxy: every origin header class (Cache-Control directives in several letter cases, orders, one or two field lines, malformed/overflowing max-age; Expires absent/future/past/'0'/garbage/RFC 850) x the four ignore/force policies x two default lifetimes x nine gap patterns (gaps of 1 s, lifetime-1 s, lifetime+1 s relative to the reference lifetime) of three requests with the origin's version bumped between them; every exchange is judged against the reference relation B1: origin contacted iff required, HIT label iff no contact, Age and ttl within one second of the reference. Origin clock skew: Date 0 s / 5 s / 300 s / 2 h ahead of the proxy's clock and no Date at all; Age and ttl of hits 3 s, 100 s and 599 s after storing must follow the time of storing. Category-changing histories: see C04.",
 		LevelNote: "Trusted: the in-process origin and virtual clock; the reference relation B1 (written from the property text; the instant age==lifetime, ignored max-age=0 and malformed max-age are left free).",
 		Technique: "explicit-state enumeration of request histories x header classes x policies on the implementation against a reference freshness model",
 		DesignRef: "DESIGN.md section 4 C03, appendix B1",
@@ -154,7 +154,7 @@ func checkC03() *checkDef {
 func checkC04() *checkDef {
 	return &checkDef{
 		ID: "C04", Title: "Exactly the storable responses are stored", Level: "model_checking",
-		LevelText: "Same enumeration as C03 (header classes x policies x gap patterns) plus methods x status codes: a response is served without origin contact only if it was a 200 answer to a GET and not marked no-store/no-cache/private/max-age=0/already expired (unless directives are ignored); conversely a 200 GET with positive max-age, or with no Cache-Control and no past Expires, is reused while fresh.",
+		LevelText: "Same enumeration as C03 (header classes x policies x gap patterns) plus methods x status codes: a response is served without origin contact only if it was a 200 answer to a GET and not marked no-store/no-cache/private/max-age=0/already expired (unless directives are ignored); conversely a 200 GET with positive max-age, or with no Cache-Control and no past Expires, is reused while fresh. Plus every history of four answers on one key over six answer categories (storable 200, no-store, private, max-age=0, 503, 404) x ignore on/off against a two-line store model: nothing remembered about an earlier answer for the key may keep a later storable answer out of the store or an unstorable one in.",
 		LevelNote: "Trusted: in-process origin, virtual clock, reference relation B1 (must / must-not / free zones).",
 		Technique: "explicit-state enumeration of request histories x header classes x methods x statuses on the implementation against a reference storability model",
 		DesignRef: "DESIGN.md section 4 C04, appendix B1",
@@ -168,7 +168,7 @@ func checkC02() *checkDef {
 	return &checkDef{
 		ID: "C02", Title: "Distinct resources never share a cache entry", Level: "exploration",
 		Category: "exploration",
-		LevelText: "Bounded-exhaustive input enumeration: every request target from {GET,HEAD} x 4 hosts x all paths of up to 3 segments over {a,b,.,..,empty,a|b,a%7Cb,a%2Fb,%61,A} with and without trailing slash x 8 query forms, parsed from the wire by http.ReadRequest, keyed by the real MakeFromRequest; ALL pairs are judged (keys are bucketed, colliding buckets compared pairwise) against the relation B2 written from the property text: equal up to host case and dot-segment removal must share; differing in anything beyond duplicate slashes / unreserved percent-decoding must not. Violating pair classes are confirmed end to end through the proxy (store A, request B, decode whose body came back).",
+		LevelText: "Bounded-exhaustive input enumeration: every request target from {GET,HEAD} x 4 hosts x all paths of up to 3 segments over {a,b,.,..,empty,a|b,a%7Cb,a%2Fb,%61,A} with and without trailing slash x 8 query forms, parsed from the wire by http.ReadRequest, keyed by the real MakeFromRequest; ALL pairs are judged (keys are bucketed, colliding buckets compared pairwise) against the relation B2 written from the property text: equal up to host case and dot-segment removal must share; differing in anything beyond duplicate slashes / unreserved percent-decoding must not. Violating pair classes are confirmed end to end through the proxy (store A, request B, decode whose body came back). End to end also over the host/scheme/transport component: all ordered pairs of eight addressings (plain a.test, A.TEST, b.test, a.test:8080; tunnel to a.test; tunnel to b.test; tunnel to a.test with inner Host b.test / A.test) against a host-aware scripted origin: the second request must receive the body of the origin it names, and pairs naming one resource must share.",
 		LevelNote: "Trusted: the reference relation (RFC 3986 5.2.4 remove_dot_segments on the path as sent), http.ReadRequest as the producer of what the server sees.",
 		Technique: "bounded-exhaustive enumeration of request-target pairs against a reference identity relation, with end-to-end confirmation through the implementation",
 		DesignRef: "DESIGN.md section 4 C02, appendix B2",
@@ -186,7 +186,7 @@ func checkC02() *checkDef {
 func checkC06() *checkDef {
 	return &checkDef{
 		ID: "C06", Title: "Revalidation uses stored validators; 304 and 200 update the entry correctly", Level: "model_checking",
-		LevelText: "Explicit-state exploration of histories over {GET with six kinds of client conditionals, expire (1 s past / 1 s before the model's expiry), origin content change, origin answers the next request 404/500} up to depth 4 (5 thorough) x five validator schemes (ETag, Last-Modified, both, none, weak ETag) x both backends on the real proxy, in lock step with a reference model: every upstream request must carry exactly the stored validators and no client conditional; 304 keeps the stored body and renews the lifetime by the configured default (probed 1 s before and after); 200 replaces it; other answers are relayed and force a new contact.",
+		LevelText: "Explicit-state exploration of histories over {GET with six kinds of client conditionals, expire (1 s past / 1 s before the model's expiry), origin content change, origin answers the next request 404/500} up to depth 4 (5 thorough) x five validator schemes (ETag, Last-Modified, both, none, weak ETag) x both backends on the real proxy, in lock step with a reference model: every upstream request must carry exactly the stored validators and no client conditional; 304 keeps the stored body and renews the lifetime by the configured default (probed 1 s before and after); 200 replaces it; other answers are relayed and force a new contact. Validator schemes include 304 answers that print the ETag in weak form, print another tag, print no validator, or carry payload fields; a 304 ends the exchange (no further upstream request) and renews the stored entry whatever it prints.",
 		LevelNote: "Trusted: in-process origin (honours conditionals like a real origin), virtual clock, the lock-step reference model.",
 		Technique: "explicit-state enumeration of request/expiry/origin-change histories on the implementation in lock step with a reference model",
 		DesignRef: "DESIGN.md section 4 C06",
@@ -286,7 +286,7 @@ func checkC09() *checkDef {
 func checkC10() *checkDef {
 	return &checkDef{
 		ID: "C10", Title: "Each exchange on a CONNECT tunnel is isolated and equals plain proxying", Level: "model_checking",
-		LevelText: "Explicit-state exploration of exchange sequences: every sequence of length <=3 (<=4 thorough) over nine exchange shapes (cacheable 200, its HIT, chunked no-store 200, 404 with body, 204, HEAD, Range->206, POST with body, origin 500, response with distinctive headers) is sent (i) over one kept-alive tunnel through the real handleCONNECT with a real TLS handshake, (ii) over one tunnel per request and (iii) over plain HTTP, against identically scripted origins; per position the three answers must agree on status, end-to-end header multimap and body (differential oracle: (i)!=(ii) means the answer depends on an earlier exchange).",
+		LevelText: "Explicit-state exploration of exchange sequences: every sequence of length <=3 (<=4 thorough) over nine exchange shapes (cacheable 200, its HIT, chunked no-store 200, 404 with body, 204, HEAD, Range->206, POST with body, origin 500, response with distinctive headers) is sent (i) over one kept-alive tunnel through the real handleCONNECT with a real TLS handshake, (ii) over one tunnel per request and (iii) over plain HTTP, against identically scripted origins; per position the three answers must agree on status, end-to-end header multimap and body (differential oracle: (i)!=(ii) means the answer depends on an earlier exchange). The shape alphabet includes two exchanges that fail inside the proxy while carrying a request body (unusable inner Host with a body that looks like a request; unreachable origin): their body bytes must not be read as the next request.",
 		LevelNote: "Trusted: in-memory connections and the real net/http + crypto/tls stacks; Date, Content-Length/Transfer-Encoding/Connection are excluded from the comparison (framing may differ, the body may not).",
 		Technique: "explicit-state enumeration of exchange sequences on the implementation with a three-way differential oracle (kept-alive tunnel / fresh tunnel / plain)",
 		DesignRef: "DESIGN.md section 4 C10",
@@ -528,7 +528,7 @@ func c19CacheScenarios() []sched {
 func checkC19() *checkDef {
 	return &checkDef{
 		ID: "C19", Title: "Components follow the latest setting; unsubscribing is safe in any order", Level: "model_checking",
-		LevelText: "Event bus: every sequence over {subscribe i, unsubscribe i, fire} with 3 listeners up to depth 6 (7 thorough) on the real utils/event code, with a probe change after every step compared with the reference listener set (B6); all schedules of the notifier threads of back-to-back changes (the last value must win).",
+		LevelText: "Event bus: every sequence over {subscribe i, unsubscribe i, fire} with 3 listeners up to depth 6 (7 thorough) on the real utils/event code, with a probe change after every step compared with the reference listener set (B6); all schedules of the notifier threads of back-to-back changes (the last value must win). Component level, differential: every history (depth <= 3) of run-time changes of max_cache_size, memory_budget_percent and cleanup_interval followed by a probe (stores, reads, clock advances); the cache must answer exactly like a cache constructed with the final values.",
 		LevelNote: "Trusted: instrumenter (go statement -> scheduled thread), reference set model. Component level (caches, janitor, logging, request-path switches) is covered by the scenarios listed in the evidence.",
 		Technique: "explicit-state enumeration of subscribe/unsubscribe/fire histories against a reference set model + exhaustive schedule enumeration of the asynchronous notifications",
 		DesignRef: "DESIGN.md section 4 C19, appendix B6",
@@ -570,7 +570,7 @@ func schedScenariosOf(c *checkDef, tier string) []sched {
 func checkC15() *checkDef {
 	return &checkDef{
 		ID: "C15", Title: "Shared proxy state is free of data races", Level: "model_checking",
-		LevelText: "The Go race detector is run inside the schedule explorer: for every explored schedule (K preemptions) of the concurrent scenarios of C01, C12, C13 and C14 (and the scenarios that exist only here), the detector judges whether two conflicting accesses are unordered by the happens-before relation of that schedule. The scheduler's hand-offs are hidden from the detector (runtime.RaceDisable, //go:norace shims, no maps/closures/fmt in shim code) and the shim lock/waitgroup/once emit exactly the acquire/release edges of the real primitives, so only the code's own synchronisation orders accesses. Each report is normalised to the unordered pair of innermost reservoir frames + access kinds and matched against known_findings.json.",
+		LevelText: "The Go race detector is run inside the schedule explorer: for every explored schedule (K preemptions) of the concurrent scenarios of C01, C12, C13 and C14 (and the scenarios that exist only here), the detector judges whether two conflicting accesses are unordered by the happens-before relation of that schedule. The scheduler's hand-offs are hidden from the detector (runtime.RaceDisable, //go:norace shims, no maps/closures/fmt in shim code) and the shim lock/waitgroup/once emit exactly the acquire/release edges of the real primitives, so only the code's own synchronisation orders accesses. Each report is normalised to the unordered pair of innermost reservoir frames + access kinds and matched against known_findings.json. Race-only scenarios: every entry overwritten while a cleanup / eviction scan is part-way; run-time changes of memory budget and size limit racing stores; concurrent certificate issuance for one host and for different hosts.",
 		LevelNote: "Trusted: ThreadSanitizer's happens-before tracking and its bounded history (executions are a few hundred accesses long), the edge model of vsync (mirrors sync.RWMutex's readerSem/writerSem scheme), the discard log handler (A4). A race is reported once per worker process by the detector; the schedule recorded is the one during which it was first reported.",
 		Technique: "happens-before race oracle evaluated on every schedule of a preemption-bounded exhaustive schedule enumeration of the implementation",
 		DesignRef: "DESIGN.md section 3 E2, section 4 C15",
